@@ -81,7 +81,7 @@ def coq_makefile():
     for lst in sorted(glob.glob(os.path.join(COQ, "files.d", "*.list"))):
         for ln in open(lst):
             ln = ln.strip()
-            if ln and not ln.startswith("#") and ln not in files:
+            if ln and not ln.startswith("#") and ln not in files and os.path.exists(os.path.join(COQ, ln)):
                 files.append(ln)
     text = "\n".join(hdr + files) + "\n"
     cp = os.path.join(COQ, "_CoqProject")
